@@ -36,6 +36,8 @@ HAND = [
     "M: x=A y=B; A: B; B: C; C: /c+/ | INT;",
 ]
 BAD_PARAMS = ["[foo]", "[ws]", "[split]", "[split='']", "[skipws='x']", "[ws=]", "[noskipws, noskipws, ws='a', ws='b']", "[split=' ', ws='\\\\q']"]
+BAD_ESCAPES = [r"'\N{foo}'", r"'\x'", r"'\u12'", r"'\U0011'", r"'\N{BULLET}'", r"'a\\'", '"\\N{nope}x"']
+ODD_RULE_NAMES = ["__asgn_x", "__asgnfoo", "__asgn_plain", "_", "__init__", "OBJECT", "ID", "Comment", "import", "eolterm"]
 BAD_REGEX = ["/(/", "/[/", "/*/", "/(?P<a>x)(?P<a>y)/", "/\\\\/", "/a{4294967296}/", "/[0-9]{1,99999999999}/", "/" + "(" * 120 + "a" + ")" * 120 + "/", "/(?i)a(?z)/"]
 BAD_RREL = ["[M:ID|]", "[M:ID|^]", "[M:ID|+x:a]", "[M:ID|a..b]", "[M:ID|a*.*]", "[M:ID|parent()]", "[M:ID|(a]", "[M:ID|'x'~]", "[M|ID|a", "[M:ID|~]"]
 TOKEN = re.compile(r"""\s+|//[^\n]*|/\*.*?\*/|(?P<tok>'(?:\\'|[^'])*'|"(?:\\"|[^"])*"|/(?:\\/|[^/\s])+/|\w+|[*+?#]=|[^\s\w])""", re.S)
@@ -58,6 +60,9 @@ def mutations(text):
         if re.fullmatch(r"[A-Za-z_]\w*", t):
             yield "undefined@%d" % i, J(toks[:i] + ["Undef9"] + toks[i + 1:])
             if i + 1 < n and toks[i + 1] == ":" and (i == 0 or toks[i - 1] == ";"):
+                for rn in ODD_RULE_NAMES:
+                    # the rule is renamed consistently (definition and every use)
+                    yield "rule-renamed-%s@%d" % (rn, i), J([rn if x == t else x for x in toks])
                 for bp in BAD_PARAMS:
                     yield "param%s@%d" % (bp, i), J(toks[:i + 1] + [bp] + toks[i + 1:])
                 yield "selfref@%d" % i, J(toks[:i + 2] + [t, ";"] + toks[i:])
@@ -75,6 +80,8 @@ def mutations(text):
                 yield "regex%s@%d" % (br, i), J(toks[:i] + [br] + toks[i + 1:])
         if t.startswith("'") or t.startswith('"'):
             yield "regex-for-literal@%d" % i, J(toks[:i] + ["/(/"] + toks[i + 1:])
+            for be in BAD_ESCAPES:
+                yield "escape%s@%d" % (be, i), J(toks[:i] + [be] + toks[i + 1:])
         if t == "?":
             yield "mod-on-opt@%d" % i, J(toks[:i + 1] + ["[',']"] + toks[i + 1:])
         if t in ("=", "+=", "*="):
